@@ -180,10 +180,24 @@ def cases(tier, r):
   for _ in range(60 if tier == 'quick' else 1000):
     yield 'closure', {'seed': r.getrandbits(48), 'control_flow': r.random() < 0.3, 'arg': r.choice([0, 1, 2, 5]),
                       'closure': True}
+  for i, body in enumerate(FIXED_BODIES):
+    yield 'fixed', {'seed': i, 'control_flow': False, 'arg': 2, 'body': body}
   for i in range(8 if tier == 'quick' else 40):
     yield 'method', {'method': True, 'seed': i, 'arg': i % 3}
   for i in range(6 if tier == 'quick' else 40):
     yield 'lambdas', {'lambdas': True, 'seed': r.getrandbits(32), 'same_line': i % 3 != 2}
+
+
+# A partial bound to a variable and then EXTENDED by a second partial: the first one keeps its own
+# bindings (functools.partial(p, ...) makes a new object), whichever of them is used afterwards.
+FIXED_BODIES = [
+    ['v0 = functools.partial(relu, gain=2)', 'v1 = functools.partial(v0, x=a)', 'return Dec(enc=v0, opts=v1)'],
+    ['v0 = functools.partial(gather, 1, 2)', 'v1 = functools.partial(v0, sink=a)', 'v2 = functools.partial(v0, note=3)',
+     'return Dec(enc=[v0, v1], opts=v2)'],
+    ['v0 = functools.partial(Dec, width=a)', 'v1 = functools.partial(v0, opts=[1])', 'v2 = functools.partial(v1, enc=v0)',
+     'return Dec(enc=v2, opts=(v0, v1))'],
+    ['v0 = functools.partial(relu, gain=2)', 'v1 = [functools.partial(v0, x=i) for i in range(2)]', 'return Dec(enc=v1, opts=v0)'],
+]
 
 
 _counter = [0]
@@ -321,7 +335,12 @@ def execute(case):
     obs['src'] = 'Stack.layer'
     return obs, None
   r = random.Random(case['seed'])
-  src = ProgGen(r, case['control_flow'], closure=case.get('closure', False)).program()
+  if case.get('body'):
+    # a fixed program body (targeted shapes the random generator does not draw)
+    body = '\n'.join('  ' + l for l in case['body'])
+    src = HEADER + f'def prog_plain(a, b=3):\n{body}\n' + f'\n@auto_config.auto_config\ndef prog(a, b=3):\n{body}\n'
+  else:
+    src = ProgGen(r, case['control_flow'], closure=case.get('closure', False)).program()
   obs['src'] = src
   try:
     mod, d, name = load(src)
